@@ -106,6 +106,10 @@ func (rn *runner) addWith(tc *testCase, pre func()) {
 // addPrepared queues a case whose implementation replies were already computed by the suite.
 func (rn *runner) addPrepared(tc *testCase) {
 	rn.rep.Evaluations++
+	if tc.class != "" {
+		rn.rep.Distribution[tc.class]++
+		rn.seen[tc.class] = true
+	}
 	if len(rn.rep.Samples) < 5 && len(tc.ops) > 0 {
 		rn.rep.Samples = append(rn.rep.Samples, map[string]interface{}{"ops": clip(tc.ops, 6), "impl": clip(tc.impl, 6)})
 	}
@@ -157,10 +161,20 @@ func (rn *runner) flush() {
 	k := 0
 	for _, tc := range rn.pending {
 		k++ // reset
+		diverged := false
 		for i := range tc.ops {
 			if k >= len(replies) {
 				rn.disagree(disagreement{Kind: "model", Ops: tc.ops, At: i, Impl: tc.impl[i], Other: "<driver died>", Note: tc.note})
 				break
+			}
+			if diverged {
+				// implementation and model already differ in this case: later replies are not comparable, but the
+				// specification's verdict on the input still is (it does not depend on the stores)
+				if strings.HasPrefix(tc.ops[i], "spec") && replies[k] != "outside" && replies[k] != tc.impl[i] {
+					rn.disagree(disagreement{Kind: "spec", Ops: tc.ops, At: i, Impl: tc.impl[i], Other: replies[k], Note: tc.note})
+				}
+				k++
+				continue
 			}
 			if strings.HasPrefix(tc.ops[i], "spec") {
 				// property oracle: the specification's verdict against what the implementation did
@@ -177,8 +191,7 @@ func (rn *runner) flush() {
 			}
 			if replies[k] != tc.impl[i] {
 				rn.disagree(disagreement{Kind: "model", Ops: tc.ops, At: i, Impl: tc.impl[i], Other: replies[k], Note: tc.note})
-				k += len(tc.ops) - i
-				break
+				diverged = true
 			}
 			k++
 		}
